@@ -31,7 +31,7 @@ CHECK = {
     'Array push of an own element when the store must grow, concat(x,x), assign(x,x) - are opt-in (alias=3|5|9, see OPTIN below and proposed/seq-alias-*.md); '
     'for a Tuple an aliasing push means holding one object twice (D16)',
     'two oracle modes: full (len, iteration, get(+-i), mem after every operation) and light (len, forward/backward iteration and the white-box view only; '
-    'get(i) and mem(v) are explicit operations and the index of the last indexed access is part of the state) - whatever the oracle calls between two operations '
+    'get(i) and mem(v) are explicit operations and kind and index of the last indexed access and the present position of the element it touched are part of the state; element values {0,1}) - whatever the oracle calls between two operations '
     'can overwrite hidden cursors/caches, so histories are also explored with nothing indexed in between',
     'sort beyond the BFS bound: all permutations to length 8 (9 thorough), all 0/1 patterns to length 12 (14), enumerated families '
     '(rotations, organ-pipe, interleaved/consecutive runs, single transpositions of sorted and reversed, periodic few-valued) to length 64 (100), each under sort() and sort_by(gt)',
@@ -49,12 +49,12 @@ CHECK = {
       S('list4-asan', 'asan', 'kind=list', 'maxlen=4'),
       S('tuple4-asan', 'asan', 'kind=tuple', 'maxlen=4'),
       S('tuple-same-object', 'base', 'kind=tuple', 'maxlen=3', 'same=1'),
-      # light oracle: only len + iteration + white-box between operations; get(i)/mem(v) are explicit operations; the index of the
-      # last indexed access is part of the state (hidden cursors / position caches survive from one operation to the next)
-      S('list5-light', 'base', 'kind=list', 'maxlen=5', 'oracle=light'),
-      S('array5-light', 'base', 'kind=array', 'maxlen=5', 'oracle=light'),
-      S('tuple5-light', 'base', 'kind=tuple', 'maxlen=5', 'oracle=light'),
-      S('list4-light-asan', 'asan', 'kind=list', 'maxlen=4', 'oracle=light'),
+      # light oracle: only len + iteration + white-box between operations; get(i)/mem(v) are explicit operations; kind and index of the
+      # last indexed access and the present position of the element it touched are part of the state; two element values keep it affordable (hidden cursors / position caches survive from one operation to the next)
+      S('list5-light', 'base', 'kind=list', 'maxlen=5', 'nvals=2', 'oracle=light'),
+      S('array4-light', 'base', 'kind=array', 'maxlen=4', 'nvals=2', 'oracle=light'),
+      S('tuple5-light', 'base', 'kind=tuple', 'maxlen=5', 'nvals=2', 'oracle=light'),
+      S('list3-light-asan', 'asan', 'kind=list', 'maxlen=3', 'oracle=light'),
       # sort ladder: all permutations to length 8, enumerated families to length 64, sort() and sort_by(gt)
       S('sortladder-array', 'base', 'mode=sortladder', 'kind=array', 'sort_n=64'),
       S('sortladder-tuple', 'base', 'mode=sortladder', 'kind=tuple', 'sort_n=64'),
@@ -73,11 +73,12 @@ CHECK = {
       S('list7-asan', 'asan', 'kind=list', 'maxlen=7'),
       S('tuple7-asan', 'asan', 'kind=tuple', 'maxlen=7'),
       S('tuple-same-object', 'base', 'kind=tuple', 'maxlen=4', 'same=1'),
-      S('list7-light', 'base', 'kind=list', 'maxlen=7', 'oracle=light'),
-      S('array7-light', 'base', 'kind=array', 'maxlen=7', 'oracle=light'),
-      S('tuple7-light', 'base', 'kind=tuple', 'maxlen=7', 'oracle=light'),
-      S('list5-light-asan', 'asan', 'kind=list', 'maxlen=5', 'oracle=light'),
-      S('array5-light-asan', 'asan', 'kind=array', 'maxlen=5', 'oracle=light'),
+      S('list7-light', 'base', 'kind=list', 'maxlen=7', 'nvals=2', 'oracle=light'),
+      S('list5-light-3vals', 'base', 'kind=list', 'maxlen=5', 'oracle=light'),
+      S('array6-light', 'base', 'kind=array', 'maxlen=6', 'nvals=2', 'oracle=light'),
+      S('tuple7-light', 'base', 'kind=tuple', 'maxlen=7', 'nvals=2', 'oracle=light'),
+      S('list4-light-asan', 'asan', 'kind=list', 'maxlen=4', 'nvals=2', 'oracle=light'),
+      S('array4-light-asan', 'asan', 'kind=array', 'maxlen=4', 'nvals=2', 'oracle=light'),
       S('sortladder-array', 'base', 'mode=sortladder', 'kind=array', 'sort_n=100', 'perm_n=9', 'bits_n=14'),
       S('sortladder-tuple', 'base', 'mode=sortladder', 'kind=tuple', 'sort_n=100', 'perm_n=9', 'bits_n=14'),
       S('sortladder-array-asan', 'asan', 'mode=sortladder', 'kind=array', 'sort_n=64'),
